@@ -335,8 +335,8 @@ func TestC09(t *testing.T) {
 		"histories_with/ds/cache0/purge", "histories_with/ds/cache1/purge", "histories_with/ds/cache16/purge",
 		"histories_with/ds/cache0/lookahead", "histories_with/ds/cache1/lookahead", "histories_with/ds/cache16/lookahead",
 		"histories_with/mem/cap-per-peer-2", "histories_with/mem/cap-global-3",
-		"histories_nontrivial",
+		"histories_nontrivial", "ds_gc_index_audits",
 	} {
-		r.Require(k, 20)
+		r.Require(k, 100)
 	}
 }
